@@ -46,4 +46,12 @@ theorem imports_stdlib_only : imports.all (fun p => !hasChar '.' p.2) = true := 
     function on the coding path is free of process-local history. -/
 theorem package_state_writes : pkgWrites = [("cachedTypeInfo1", "typeCache")] := by decide
 
+/-- Narrowing conversions in decode.go: `byte(size)` only as the argument of `readUint` in
+    `Stream.uint` — i.e. AFTER `size > maxbits/8` was checked on the full `uint64` — and
+    `int(8 - size)` in `readUint` (size ≤ 8 there). A size narrowed before its range check (an
+    assignment or a condition holding `byte(size)`) breaks this obligation; the model keeps `size` a
+    `Nat` throughout (`sUint`: `if size > maxbits / 8 then uintOverflow`). -/
+theorem narrowing_conversions :
+    narrowConvs = [("Stream.uint", "byte", "arg"), ("Stream.readUint", "int", "assign")] := by decide
+
 end Rangers.Props.C08
